@@ -554,6 +554,7 @@ def c02_cases(tier, seed):
     c1 = c01_cases(tier, seed)
     cases += c1[: (12 if tier == "quick" else len(c1))]
     cases += [c for c in c1 if c.tag.startswith(("c01_literals", "c01_subkeys", "c01_namespaces"))][:6]
+    cases += [c for c in c1 if c.tag.startswith("c01_large")]
     c4 = c04_cases(tier, seed)
     cases += c4[:: (3 if tier == "quick" else 1)]
     c5 = [c for c in c05_cases(tier, seed) if c.expect == "ok"]
@@ -664,7 +665,7 @@ def c18_cases(tier, seed):
 def c08_cases(tier, seed):
     rng = random.Random(8000 + seed)
     cases = []
-    kinds = ["str", "interp", "comp", "range", "plural", "num", "fk_rename", "fk_fixed", "null"]
+    kinds = ["str", "interp", "comp", "range", "plural", "num", "fk_rename", "fk_fixed", "fk_comp", "null"]
 
     def value(kind, l, k, ty):
         m = "%s.%s" % (l, k)
@@ -682,6 +683,9 @@ def c08_cases(tier, seed):
             return NUM(12)
         if kind == "fk_rename":
             return S(FK("tr_%s" % (ty or "i32"), {"count": S(V("renamed"))}), " ", V("z"))
+        if kind == "fk_comp":
+            # the substituted variable sits inside a component of the target
+            return S(FK("tc", {"who": S("fixed " + l), "unused": S("x")}), " ", V("z"))
         if kind == "fk_fixed":
             return S(FK("tr_%s" % (ty or "i32"), {"count": NUM(1.0 if ty in ("f32", "f64") else 1), "who": S("fixed")}))
         return NULL()
@@ -695,7 +699,8 @@ def c08_cases(tier, seed):
     for pi in range(0, n, per):
         locales = ["en", "fr", "de"]
         ty = types[(pi // per) % len(types)]
-        files = {l: {"tr_%s" % (ty or "i32"): RANGE(ty, [([("exact", 1)], S(l + " tr one ", V("who"))), ("fallback", S(l + " tr ", V("count"), V("who")))])} for l in locales}
+        files = {l: {"tr_%s" % (ty or "i32"): RANGE(ty, [([("exact", 1)], S(l + " tr one ", V("who"))), ("fallback", S(l + " tr ", V("count"), V("who")))]),
+                     "tc": S(l + " tc ", Cp("b", "[", V("who"), "]", Cp("i", V("who"))), " ", V("other"))} for l in locales}
         roles = {}
         for k, combo in enumerate(combos[pi:pi + per]):
             key = "k%d" % k
